@@ -1,4 +1,5 @@
 import HioModel.Req.Model
+import HioModel.TextLemmas
 /-! helper lemmas for C14 (urllib.parse byte level round trips, query packing, header lines) -/
 namespace Hio.Http.Req
 open Hio.Http
@@ -330,22 +331,471 @@ theorem wordsAux_word (w rest cur : Bytes) (h : NoWs w) : wordsAux (w ++ rest) c
   | cons b w ih =>
     have hb : isWs b = false := h b (List.mem_cons_self ..)
     simp only [List.cons_append, wordsAux, hb, Bool.false_eq_true, ↓reduceIte]
-    rw [ih (fun x hx => h x (List.mem_cons_of_mem _ hx))]
+    rw [ih _ (fun x hx => h x (List.mem_cons_of_mem _ hx))]
     simp
 
 theorem words_three (a b c : Bytes) (ha : NoWs a) (hb : NoWs b) (hc : NoWs c) (hae : a ≠ []) (hbe : b ≠ []) (hce : c ≠ []) :
     words (a ++ [32] ++ b ++ [32] ++ c) = [a, b, c] := by
-  have hrev : ∀ x : Bytes, x ≠ [] → (x.reverse ++ ([] : Bytes)).isEmpty = false := by
+  have hrev : ∀ x : Bytes, x ≠ [] → x.reverse.isEmpty = false := by
     intro x hx; cases x with | nil => exact absurd rfl hx | cons _ _ => simp
   unfold words
   rw [List.append_assoc, List.append_assoc, List.append_assoc, wordsAux_word a _ [] ha]
   have hsp : isWs 32 = true := by decide
-  simp only [List.singleton_append, wordsAux, hsp, ↓reduceIte, hrev a hae, Bool.false_eq_true, List.append_nil, List.reverse_reverse]
+  simp only [List.singleton_append, wordsAux, hsp, ↓reduceIte, List.append_nil, List.reverse_reverse]
   rw [wordsAux_word b _ [] hb]
-  simp only [wordsAux, hsp, ↓reduceIte, hrev b hbe, Bool.false_eq_true, List.append_nil, List.reverse_reverse]
+  simp only [wordsAux, hsp, ↓reduceIte, List.append_nil, List.reverse_reverse]
   have := wordsAux_word c [] [] hc
   rw [List.append_nil] at this
   rw [this]
-  simp only [wordsAux, hrev c hce, Bool.false_eq_true, ↓reduceIte, List.append_nil, List.reverse_reverse]
+  simp only [wordsAux, List.append_nil, List.reverse_reverse, hrev a hae, hrev b hbe, hrev c hce, Bool.false_eq_true, ↓reduceIte]
+
+end Hio.Http.Req
+
+namespace Hio.Http.Req
+open Hio.Http
+
+theorem takeLine_crlf (l rest : Bytes) (h : 10 ∉ l) : takeLine (l ++ crlf ++ rest) = some (l, rest) := by
+  unfold takeLine
+  have : l ++ crlf ++ rest = l ++ 13 :: 10 :: rest := by simp [crlf]
+  rw [this, split2_crlf l rest h]
+
+theorem lower_lower (s : Bytes) : lower (lower s) = lower s := by
+  unfold lower; rw [List.map_map]; congr 1; funext b; exact toLower_toLower b
+
+def lowered (hs : Headers) : Headers := hs.map (fun h => (lower h.1, h.2))
+
+theorem hasKey_lowered_append (k : Bytes) (acc : Headers) (n v : Bytes) :
+    hasKey k (acc ++ [(lower n, v)]) = (hasKey k acc || (lower n == k)) := by
+  simp [hasKey, List.any_append, lower_lower]
+
+/-- `parseLeader` over header lines with pairwise different names: every line becomes one entry, in order -/
+theorem parseLeader_lines (hs : Headers) (acc : Headers) (body : Bytes) (fuel : Nat) (hf : hs.length < fuel)
+    (hn : ∀ h ∈ hs, 10 ∉ h.1 ∧ 58 ∉ h.1) (hv : ∀ h ∈ hs, 10 ∉ h.2)
+    (hd : ∀ h ∈ hs, hasKey (lower h.1) acc = false) (hnd : (hs.map (fun h => lower h.1)).Nodup)
+    (few : acc.length + hs.length ≤ 100) :
+    parseLeader fuel ((hs.map (fun h => packHeader h.1 h.2)).flatMap (· ++ crlf) ++ crlf ++ body) acc =
+      .ok (acc ++ lowered hs, body) := by
+  induction hs generalizing acc fuel with
+  | nil =>
+    cases fuel with
+    | zero => omega
+    | succ f =>
+      simp only [List.map_nil, List.flatMap_nil, List.nil_append, parseLeader, lowered, List.append_nil]
+      have := takeLine_crlf [] body (by simp)
+      rw [List.nil_append] at this
+      rw [this]; simp
+  | cons h hs ih =>
+    cases fuel with
+    | zero => omega
+    | succ f =>
+      obtain ⟨hn1, hn2⟩ := hn h (List.mem_cons_self ..)
+      have hv1 := hv h (List.mem_cons_self ..)
+      have hline : 10 ∉ packHeader h.1 h.2 := by
+        unfold packHeader
+        intro hm
+        rcases List.mem_append.mp hm with hm | hm
+        · rcases List.mem_append.mp hm with hm | hm
+          · exact not_mem_title 10 (by omega) _ hn1 hm
+          · simp at hm
+        · exact hv1 hm
+      simp only [List.map_cons, List.flatMap_cons, List.append_assoc, parseLeader]
+      rw [← List.append_assoc (packHeader h.1 h.2) crlf, takeLine_crlf _ _ hline]
+      have hne : (packHeader h.1 h.2).isEmpty = false := by simp [packHeader]
+      simp only [hne, Bool.false_eq_true, ↓reduceIte]
+      rw [split_packHeader _ _ hn2]
+      simp only [lower_title]
+      have hk := hd h (List.mem_cons_self ..)
+      rw [setKey_of_not_hasKey _ _ _ hk]
+      have few' : acc.length + (hs.length + 1) ≤ 100 := by simpa using few
+      have hlen : ¬ (acc ++ [(lower h.1, h.2)]).length > 100 := by
+        simp only [List.length_append, List.length_cons, List.length_nil]; omega
+      rw [if_neg hlen]
+      have hnd' := List.nodup_cons.mp hnd
+      have := ih (acc ++ [(lower h.1, h.2)]) f (by simp at hf; omega)
+        (fun x hx => hn x (List.mem_cons_of_mem _ hx)) (fun x hx => hv x (List.mem_cons_of_mem _ hx))
+        (by
+          intro x hx
+          rw [hasKey_lowered_append, hd x (List.mem_cons_of_mem _ hx), Bool.false_or]
+          have : lower h.1 ≠ lower x.1 := by
+            intro e; exact hnd'.1 (List.mem_map.mpr ⟨x, hx, e.symm⟩)
+          simpa using this)
+        hnd'.2 (by simp only [List.length_append, List.length_cons, List.length_nil]; omega)
+      rw [List.append_assoc] at this
+      rw [this]
+      simp [lowered]
+
+end Hio.Http.Req
+
+namespace Hio.Http.Req
+open Hio.Http
+
+/-! ### the request target -/
+
+theorem alwaysSafe_table : ∀ c ∈ Gen.alwaysSafe, isWs c = false ∧ c ≠ 63 ∧ c ≠ 35 ∧ c ≠ 10 ∧ c ≠ 47 := by decide
+
+theorem alwaysSafe_mem (c : Nat) (h : alwaysSafe c = true) : c ∈ Gen.alwaysSafe := by
+  unfold alwaysSafe at h; exact List.contains_iff_mem.mp h
+
+def HexByte (c : Nat) : Prop := (48 ≤ c ∧ c ≤ 57) ∨ (65 ≤ c ∧ c ≤ 70)
+
+theorem hexU_range (d : Nat) (h : d < 16) : HexByte (hexU d) := by
+  unfold hexU HexByte; split <;> omega
+
+/-- bytes of a quoted string: safe ones, `%`, hex digit characters -/
+theorem quoteWith_chars (safe : Nat → Bool) (bs : Bytes) (hb : BytesOk bs) (c : Nat) (h : c ∈ quoteWith safe bs) :
+    safe c = true ∨ c = 37 ∨ HexByte c := by
+  induction bs with
+  | nil => simp [quoteWith] at h
+  | cons b bs ih =>
+    have hlt : b < 256 := hb b (List.mem_cons_self ..)
+    simp only [quoteWith, List.mem_append] at h
+    rcases h with h | h
+    · by_cases hsafe : safe b = true
+      · simp only [hsafe, ↓reduceIte, List.mem_singleton] at h; subst h; exact Or.inl hsafe
+      · simp only [hsafe, pct, Bool.false_eq_true, ↓reduceIte, List.mem_cons, List.not_mem_nil, or_false] at h
+        rcases h with h | h | h
+        · exact Or.inr (Or.inl h)
+        · subst h; exact Or.inr (Or.inr (hexU_range _ (by omega)))
+        · subst h; exact Or.inr (Or.inr (hexU_range _ (by omega)))
+    · exact ih (fun x hx => hb x (List.mem_cons_of_mem _ hx)) h
+
+/-- a byte that may appear in a request target built by the client -/
+def TargetByte (c : Nat) : Prop := isWs c = false ∧ c ≠ 35 ∧ c ≠ 10
+
+theorem targetByte_of_quote (c : Nat) (h : (alwaysSafe c || c == 47) = true ∨ c = 37 ∨ HexByte c) : TargetByte c ∧ c ≠ 63 := by
+  rcases h with h | h | h
+  · simp only [Bool.or_eq_true, beq_iff_eq] at h
+    rcases h with h | h
+    · have := alwaysSafe_table c (alwaysSafe_mem c h)
+      exact ⟨⟨this.1, this.2.2.1, this.2.2.2.1⟩, this.2.1⟩
+    · subst h; exact ⟨⟨by decide, by decide, by decide⟩, by decide⟩
+  · subst h; exact ⟨⟨by decide, by decide, by decide⟩, by decide⟩
+  · unfold HexByte at h
+    have hw : isWs c = false := by
+      unfold isWs
+      simp only [Bool.or_eq_false_iff, Bool.and_eq_false_iff, decide_eq_false_iff_not, beq_eq_false_iff_ne, ne_eq]
+      omega
+    have e1 : c ≠ 35 := by omega
+    have e2 : c ≠ 10 := by omega
+    have e3 : c ≠ 63 := by omega
+    exact ⟨⟨hw, e1, e2⟩, e3⟩
+
+theorem quote_targetBytes (p : Bytes) (hb : BytesOk p) : ∀ c ∈ quote p, TargetByte c ∧ c ≠ 63 := by
+  intro c hc
+  exact targetByte_of_quote c (quoteWith_chars _ p hb c hc)
+
+theorem quotePlus_targetBytes (bs : Bytes) (hb : BytesOk bs) : ∀ c ∈ quotePlus bs, TargetByte c := by
+  intro c hc
+  unfold quotePlus quotePlusWith at hc
+  rcases List.mem_map.mp hc with ⟨x, hx, rfl⟩
+  unfold plusOfSpace
+  by_cases h32 : x = 32
+  · simp only [h32, ↓reduceIte]; exact ⟨by decide, by decide, by decide⟩
+  · simp only [h32, ↓reduceIte]
+    rcases quoteWith_chars _ bs hb x hx with h | h | h
+    · simp only [Bool.or_false, Bool.or_eq_true, beq_iff_eq] at h
+      rcases h with h | h
+      · have := alwaysSafe_table x (alwaysSafe_mem x h)
+        exact ⟨this.1, this.2.2.1, this.2.2.2.1⟩
+      · exact absurd h h32
+    · exact (targetByte_of_quote x (Or.inr (Or.inl h))).1
+    · exact (targetByte_of_quote x (Or.inr (Or.inr h))).1
+
+theorem joinAmp_mem (segs : List Bytes) (c : Nat) (h : c ∈ joinAmp segs) : c = 38 ∨ ∃ s ∈ segs, c ∈ s := by
+  induction segs with
+  | nil => simp [joinAmp] at h
+  | cons s rest ih =>
+    cases rest with
+    | nil => simp only [joinAmp] at h; exact Or.inr ⟨s, List.mem_cons_self .., h⟩
+    | cons t rest =>
+      simp only [joinAmp, List.append_assoc, List.mem_append, List.mem_singleton] at h
+      rcases h with h | h | h
+      · exact Or.inr ⟨s, List.mem_cons_self .., h⟩
+      · exact Or.inl h
+      · rcases ih h with h | ⟨x, hx, hc⟩
+        · exact Or.inl h
+        · exact Or.inr ⟨x, List.mem_cons_of_mem _ hx, hc⟩
+
+theorem packQs_targetBytes (qs : List (Bytes × Bytes)) (hb : ∀ kv ∈ qs, BytesOk kv.1 ∧ BytesOk kv.2) :
+    ∀ c ∈ packQs qs, TargetByte c := by
+  intro c hc
+  rcases joinAmp_mem _ c hc with h | ⟨s, hs, hcs⟩
+  · subst h; exact ⟨by decide, by decide, by decide⟩
+  · rcases List.mem_map.mp hs with ⟨kv, hkv, rfl⟩
+    simp only [List.append_assoc, List.mem_append, List.mem_singleton] at hcs
+    rcases hcs with h | h | h
+    · exact quotePlus_targetBytes _ (hb kv hkv).1 c h
+    · subst h; exact ⟨by decide, by decide, by decide⟩
+    · exact quotePlus_targetBytes _ (hb kv hkv).2 c h
+
+/-- the request target `Requester.build` writes -/
+def target (p : Bytes) (qs : List (Bytes × Bytes)) : Bytes :=
+  quote p ++ (if (packQs qs).isEmpty then [] else 63 :: packQs qs)
+
+theorem target_bytes (p : Bytes) (qs : List (Bytes × Bytes)) (hp : BytesOk p) (hb : ∀ kv ∈ qs, BytesOk kv.1 ∧ BytesOk kv.2) :
+    ∀ c ∈ target p qs, TargetByte c := by
+  intro c hc
+  unfold target at hc
+  rcases List.mem_append.mp hc with h | h
+  · exact (quote_targetBytes p hp c h).1
+  · split at h
+    · simp at h
+    · rcases List.mem_cons.mp h with h | h
+      · subst h; exact ⟨by decide, by decide, by decide⟩
+      · exact packQs_targetBytes qs hb c h
+
+theorem splitTarget_target (p : Bytes) (qs : List (Bytes × Bytes)) (hok : pathOk p = true) (hp : BytesOk p)
+    (hb : ∀ kv ∈ qs, BytesOk kv.1 ∧ BytesOk kv.2) :
+    splitTarget (target p qs) = .ok (quote p, packQs qs) := by
+  -- shape of the path
+  unfold pathOk at hok
+  simp only [Bool.and_eq_true, beq_iff_eq, bne_iff_ne, ne_eq, Bool.not_eq_true'] at hok
+  obtain ⟨⟨⟨h1, h2⟩, _⟩, _⟩ := hok
+  obtain ⟨p', rfl⟩ : ∃ p', p = 47 :: p' := by
+    cases p with
+    | nil => simp at h1
+    | cons a p' => simp only [List.head?_cons, Option.some.injEq] at h1; exact ⟨p', by rw [h1]⟩
+  have hq47 : quote (47 :: p') = 47 :: quote p' := by
+    have : alwaysSafe 47 = false := by decide
+    simp [quote, quoteWith, this]
+  have hno35 : 35 ∉ target (47 :: p') qs := fun hm => (target_bytes _ qs hp hb 35 hm).2.1 rfl
+  have hno63 : 63 ∉ quote (47 :: p') := fun hm => (quote_targetBytes _ hp 63 hm).2 rfl
+  have hsecond : ((target (47 :: p') qs).drop 1).head? ≠ some 47 := by
+    unfold target
+    rw [hq47]
+    simp only [List.cons_append, List.drop_succ_cons, List.drop_zero]
+    cases p' with
+    | nil =>
+      simp only [quote, quoteWith, List.nil_append]
+      split <;> simp
+    | cons c p'' =>
+      simp only [List.drop_succ_cons, List.drop_zero, List.head?_cons] at h2
+      have hc : c ≠ 47 := fun e => h2 (by rw [e])
+      simp only [quote, quoteWith]
+      split
+      · simp [hc]
+      · simp [pct]
+  unfold splitTarget
+  have hhead : (target (47 :: p') qs).head? = some 47 := by unfold target; rw [hq47]; rfl
+  simp only [hhead, bne_self_eq_false, Bool.false_or]
+  have : (((target (47 :: p') qs).drop 1).head? == some 47) = false := by simpa using hsecond
+  rw [this]
+  simp only [Bool.false_eq_true, ↓reduceIte]
+  rw [splitAt1_none 35 _ hno35]
+  simp only []
+  unfold target
+  by_cases hq : (packQs qs).isEmpty = true
+  · have hqe : packQs qs = [] := List.isEmpty_iff.mp hq
+    rw [hqe]
+    simp only [List.isEmpty_nil, ↓reduceIte, List.append_nil, splitAt1_none 63 _ hno63]
+  · simp only [hq, Bool.false_eq_true, ↓reduceIte]
+    rw [splitAt1_append 63 _ _ hno63]
+
+end Hio.Http.Req
+
+namespace Hio.Http.Req
+open Hio.Http
+
+/-! ### the whole request on the server -/
+
+theorem methods_table : ∀ m ∈ Gen.methods, m ≠ [] ∧ ∀ b ∈ m, isWs b = false ∧ b ≠ 10 := by decide
+
+theorem version_facts : startsWith (lit "HTTP/") Gen.requestVersion = true ∧ startsWith (lit "HTTP/1.") Gen.requestVersion = true ∧
+    Gen.requestVersion ≠ [] ∧ ∀ b ∈ Gen.requestVersion, isWs b = false ∧ b ≠ 10 := by decide
+
+theorem getKey_lowered (k : Bytes) (hs : Headers) : getKey k (lowered hs) = getKey k hs := by
+  induction hs with
+  | nil => rfl
+  | cons h hs ih => simp only [lowered, List.map_cons, getKey, lower_lower] at ih ⊢; rw [ih]
+
+theorem flatMap_crlf_length (xs : List Bytes) : xs.length ≤ (xs.flatMap (· ++ crlf)).length := by
+  induction xs with
+  | nil => simp
+  | cons x xs ih =>
+    have h2 : (x ++ crlf).length = x.length + 2 := by simp [crlf]
+    rw [List.flatMap_cons, List.length_append, h2, List.length_cons]; omega
+
+theorem unquote_path (p : Bytes) (h : BytesOk p) : unq (quote p) = p :=
+  unq_quoteWith _ (by simp [alwaysSafe_pct]) p h
+
+/-- a Content-Length field, when present, states the length of the body; without one the body is empty -/
+def LengthOk (hs : Headers) (body : Bytes) : Prop :=
+  match getKey (lit "content-length") hs with
+  | none => body = []
+  | some v => v = toDec body.length
+
+instance (hs : Headers) (body : Bytes) : Decidable (LengthOk hs body) := by
+  unfold LengthOk; split <;> infer_instance
+
+/-- what the wire must look like for the server to recover `(m, p, qs, hs, body)` -/
+structure WireOk (m p : Bytes) (qs : List (Bytes × Bytes)) (hs : Headers) (body : Bytes) : Prop where
+  method : m ∈ Gen.methods
+  path : pathOk p = true
+  pathBytes : BytesOk p
+  query : ∀ kv ∈ qs, BytesOk kv.1 ∧ BytesOk kv.2
+  names : ∀ h ∈ hs, 10 ∉ h.1 ∧ 58 ∉ h.1
+  values : ∀ h ∈ hs, 10 ∉ h.2
+  distinct : (hs.map (fun h => lower h.1)).Nodup
+  few : hs.length ≤ 100
+  noTe : hasKey (lit "transfer-encoding") hs = false
+  length : match getKey (lit "content-length") hs with
+    | none => body = []
+    | some v => v = toDec body.length
+
+theorem recover_wire (m p : Bytes) (qs : List (Bytes × Bytes)) (hs : Headers) (body : Bytes) (w : WireOk m p qs hs body) :
+    recover (joinCrlf ((m ++ [32] ++ target p qs ++ [32] ++ Gen.requestVersion) :: hs.map (fun h => packHeader h.1 h.2) ++ [[], []]) ++ body)
+      = .ok ⟨m, p, qs, lowered hs, body⟩ := by
+  obtain ⟨hmne, hmb⟩ := methods_table m w.method
+  obtain ⟨v1, v2, v3, v4⟩ := version_facts
+  have htb := target_bytes p qs w.pathBytes w.query
+  have htne : target p qs ≠ [] := by
+    unfold target
+    have hok := w.path
+    unfold pathOk at hok
+    cases p with
+    | nil => simp at hok
+    | cons a p' => simp [quote, quoteWith]; split <;> simp [pct]
+  -- the start line
+  have hstart10 : 10 ∉ m ++ [32] ++ target p qs ++ [32] ++ Gen.requestVersion := by
+    intro hm
+    simp only [List.append_assoc, List.mem_append, List.mem_singleton] at hm
+    rcases hm with h | h | h | h | h
+    · exact (hmb 10 h).2 rfl
+    · omega
+    · exact (htb 10 h).2.2 rfl
+    · omega
+    · exact (v4 10 h).2 rfl
+  rw [joinCrlf_blank, List.flatMap_cons, List.append_assoc, List.append_assoc]
+  unfold recover
+  rw [← List.append_assoc _ crlf, takeLine_crlf _ _ hstart10]
+  have hne : (m ++ [32] ++ target p qs ++ [32] ++ Gen.requestVersion).isEmpty = false := by
+    cases m with
+    | nil => exact absurd rfl hmne
+    | cons _ _ => rfl
+  simp only [hne, Bool.false_eq_true, ↓reduceIte]
+  rw [words_three m (target p qs) Gen.requestVersion (fun b hb => (hmb b hb).1) (fun b hb => (htb b hb).1)
+    (fun b hb => (v4 b hb).1) hmne htne v3]
+  simp only [List.getD_cons_zero, List.getD_cons_succ, v1, v2, Bool.not_true, Bool.false_eq_true, ↓reduceIte]
+  have hmc : Gen.methods.contains m = true := List.contains_iff_mem.mpr w.method
+  simp only [hmc, Bool.not_true, Bool.false_eq_true, ↓reduceIte]
+  rw [splitTarget_target p qs w.path w.pathBytes w.query]
+  simp only []
+  rw [parseLeader_lines hs [] body _ (by
+      have := flatMap_crlf_length (hs.map (fun h => packHeader h.1 h.2))
+      simp only [List.length_map, List.length_append] at this ⊢
+      omega) w.names w.values (by intro h _; rfl) w.distinct (by simpa using w.few)]
+  simp only [List.nil_append]
+  have hte : getKey (lit "transfer-encoding") (lowered hs) = none := by
+    rw [getKey_lowered]; exact getKey_of_not_hasKey _ _ w.noTe
+  rw [hte, getKey_lowered]
+  simp only [Option.map_none]
+  have hnone : ((none : Option Bytes) == some (lit "chunked")) = false := rfl
+  simp only [hnone, Bool.false_eq_true, ↓reduceIte]
+  have hlen := w.length
+  cases hc : getKey (lit "content-length") hs with
+  | none =>
+    rw [hc] at hlen
+    simp only [hlen, List.length_nil, Nat.not_lt_zero, ↓reduceIte, List.take_zero, unquote_path p w.pathBytes,
+      parseQsl_packQs qs w.query]
+  | some v =>
+    rw [hc] at hlen
+    simp only []
+    have hve : v.isEmpty = false := by
+      rw [hlen]; cases h : toDec body.length with
+      | nil => exact absurd h (toDec_ne_nil _)
+      | cons _ _ => rfl
+    have hv : v = toDec body.length := hlen
+    subst hv
+    simp only [hve, Bool.false_eq_true, ↓reduceIte, parseDec_toDec, Nat.lt_irrefl, List.take_length,
+      unquote_path p w.pathBytes, parseQsl_packQs qs w.query]
+
+end Hio.Http.Req
+
+namespace Hio.Http.Req
+open Hio.Http
+
+/-! ### what `Requester.build` puts on the wire, in closed form -/
+
+def isGet (s : Spec) : Bool := upper s.method == lit "GET"
+
+/-- the body that is sent: nothing with GET, else JSON text / form encoding / raw body -/
+def builtBody (s : Spec) : Bytes :=
+  if isGet s then [] else if s.bkind == 1 then s.raw else if s.bkind == 2 then formBody s.form else s.raw
+
+/-- the caller's header fields after the Content-Type override of JSON / form bodies -/
+def sentHeaders (s : Spec) : Headers :=
+  if isGet s then s.headers
+  else if s.bkind == 1 then setKey (lit "content-type") Gen.jsonContentType s.headers
+  else if s.bkind == 2 then setKey (lit "content-type") Gen.formContentType s.headers
+  else s.headers
+
+/-- every header field on the wire, in order: defaults first, then the caller's -/
+def builtHeaders (s : Spec) : Headers :=
+  (if hasKey (lit "host") s.headers then [] else [(lit "Host", s.host)]) ++
+  (if hasKey (lit "accept-encoding") s.headers then [] else [(lit "Accept-Encoding", Gen.acceptEncoding)]) ++
+  (if !(builtBody s).isEmpty && !hasKey (lit "content-length") (sentHeaders s) then [(lit "Content-Length", toDec (builtBody s).length)] else []) ++
+  sentHeaders s
+
+theorem build_eq (s : Spec) (hne : s.path ≠ []) (hclean : stripUnsafe s.path = s.path) (hok : pathOk s.path = true)
+    (hascii : isAscii s.method = true) (hmp : (!isGet s && s.bkind == 2 && multipart s) = false) :
+    build s = .ok (joinCrlf ((upper s.method ++ [32] ++ target s.path s.qargs ++ [32] ++ Gen.requestVersion) ::
+      (builtHeaders s).map (fun h => packHeader h.1 h.2) ++ [[], []]) ++ builtBody s) := by
+  have hpe : s.path.isEmpty = false := by cases h : s.path with | nil => exact absurd h hne | cons _ _ => rfl
+  have hcond : ¬ ((upper s.method != lit "GET" && s.bkind == 2 && multipart s) = true) := by
+    have : (upper s.method != lit "GET") = !isGet s := by simp [isGet, bne]
+    rw [this, hmp]; decide
+  unfold build buildParts
+  simp only [hpe, Bool.false_eq_true, ↓reduceIte, hclean, hok, hascii, Bool.not_true, Bool.or_self]
+  rw [if_neg hcond]
+  simp only []
+  unfold builtHeaders builtBody sentHeaders isGet target
+  have hite : ∀ (c : Prop) [Decidable c] (x : Bytes × Bytes),
+      List.map (fun h : Bytes × Bytes => packHeader h.1 h.2) (if c then [] else [x]) = if c then [] else [packHeader x.1 x.2] := by
+    intro c _ x; split <;> rfl
+  have hite2 : ∀ (c : Prop) [Decidable c] (x : Bytes × Bytes),
+      List.map (fun h : Bytes × Bytes => packHeader h.1 h.2) (if c then [x] else []) = if c then [packHeader x.1 x.2] else [] := by
+    intro c _ x; split <;> rfl
+  by_cases hg : (upper s.method == lit "GET") = true
+  · simp [hg, hite, hite2]
+  · by_cases h1 : (s.bkind == 1) = true
+    · simp [hg, h1, hite, hite2]
+    · by_cases h2 : (s.bkind == 2) = true
+      · simp [hg, h1, h2, hite, hite2]
+      · simp [hg, h1, h2, hite, hite2]
+
+/-- a caller's header field is on the wire unchanged, unless it is the Content-Type that a JSON / form body replaces -/
+theorem mem_setKey_of_ne (k v : Bytes) (hs : Headers) (x : Bytes × Bytes) (hx : x ∈ hs) (hne : (lower x.1 == k) = false) :
+    x ∈ setKey k v hs := by
+  induction hs with
+  | nil => simp at hx
+  | cons h hs ih =>
+    unfold setKey
+    rcases List.mem_cons.mp hx with e | hx
+    · subst e; simp [hne]
+    · split
+      · exact List.mem_cons_of_mem _ (List.mem_filter.mpr ⟨hx, by simp [bne, hne]⟩)
+      · exact List.mem_cons_of_mem _ (ih hx)
+
+theorem spec_header_on_wire (s : Spec) (x : Bytes × Bytes) (hx : x ∈ s.headers)
+    (hct : (lower x.1 == lit "content-type") = false ∨ isGet s = true ∨ (s.bkind != 1 && s.bkind != 2) = true) :
+    x ∈ builtHeaders s := by
+  unfold builtHeaders
+  apply List.mem_append_right
+  unfold sentHeaders
+  split
+  · exact hx
+  · rename_i hg
+    rcases hct with h | h | h
+    · split
+      · exact mem_setKey_of_ne _ _ _ _ hx h
+      · split
+        · exact mem_setKey_of_ne _ _ _ _ hx h
+        · exact hx
+    · exact absurd h hg
+    · simp only [Bool.and_eq_true, bne_iff_ne, ne_eq] at h
+      have h1 : (s.bkind == 1) = false := by simpa using h.1
+      have h2 : (s.bkind == 2) = false := by simpa using h.2
+      simp only [h1, h2, Bool.false_eq_true, ↓reduceIte]
+      exact hx
 
 end Hio.Http.Req
